@@ -46,6 +46,10 @@ try:
     elif group == "e3_k12_framing":
         lib = X.Mir(os.path.join(os.path.dirname(mirf), "lib.mir"))
         E.k12_output_framing(lib, rep)
+    elif group == "e3_k13_trials":
+        X.load_enums(os.path.join(src, "src/input.rs"))
+        lib = X.Mir(os.path.join(os.path.dirname(mirf), "lib.mir"))
+        E.k13_input_matches(lib, rep)
     elif group == "e3_k8_from_reader":
         lib = X.Mir(os.path.join(os.path.dirname(mirf), "lib.mir"))
         E.k8_from_reader(lib, rep)
